@@ -197,6 +197,12 @@ impl Prop for C02 {
 			by_fam!(case.fam, check(sub, &exp, &mut scratch)).map_err(|f| Failure::new(format!("misaligned:{}", f.sig), format!("(input borrowed at byte offset {k} of a larger buffer) {}", f.msg)))?;
 			cx.obs(scratch.observations);
 		}
+		// ... and in a re-used buffer: at the address where the previous text of this length was parsed
+		{
+			let mut scratch = Ctx::default();
+			gen::with_arena(&case.text, |s| by_fam!(case.fam, check(s, &exp, &mut scratch))).map_err(|f| Failure::new(format!("reused-buffer:{}", f.sig), format!("(input in a buffer re-used from the previous text of the same length) {}", f.msg)))?;
+			cx.obs(scratch.observations);
+		}
 		let judged = by_fam!(case.fam, check(&case.text, &exp, cx))?;
 		if !judged {
 			cx.class("rejected-by-library");
